@@ -443,6 +443,10 @@ class Executor:
     def eval_operand(self, st, frame, op):
         if op.kind == 'const':
             c = op.const
+            mnum = re.match(r'^(?:core|std)::num::<impl (u8|u16|u32|u64|usize|u128)>::(MAX|MIN|BITS)$', c.strip())
+            if mnum:
+                w_ = INT_TYPES[mnum.group(1)][0]
+                return Int({'MAX': (1 << w_) - 1, 'MIN': 0, 'BITS': w_}[mnum.group(2)], 32 if mnum.group(2) == 'BITS' else w_, False)
             if c.startswith('<') and ' as ' in c and 'promoted[' not in c:
                 cs = subst(c, frame.bind)
                 v = self.eval_assoc_const(st, frame, cs)
